@@ -519,7 +519,7 @@ fn run_steps(scn: &Scenario) {
         solver: Solver::with_options(scn.opts.to_options()),
         ctx: Ctx::default(),
         nvars: 1,
-        poll_cap: std::env::var("PVH_POLL_CAP").ok().and_then(|s| s.parse().ok()).unwrap_or(200_000),
+        poll_cap: std::env::var("PVH_POLL_CAP").ok().and_then(|s| s.parse().ok()).unwrap_or(60_000),
     };
     for step in scn.steps.iter() {
         let cont = run_step(&mut run, step);
